@@ -240,14 +240,14 @@ def check(ctx):
             [py.try_fold(a, m) for a in sp.args] == ['\n']:
         inner = sp.func.value
         ok = P.src(inner) == 'comment'
-        if isinstance(inner, ast.Call) and P.call_name(inner) == 're.sub':
-            pat = inner.args[0]
-            pname = pat.id if isinstance(pat, ast.Name) else None
+        from . import c10
+        pname = c10.line_break_sub(py, m, inner, 'comment')
+        if isinstance(inner, ast.Call) and not ok:
             if pname in regexes:
                 try:
                     got = rx.Language(regexes[pname][0], regexes[pname][1], 'fullmatch')
                     ref = rx.Language('\r\n|\r|\n', 0, 'fullmatch')
-                    ok = rx.compare(got, ref) is None and py.try_fold(inner.args[1], m) == '\n' and P.src(inner.args[2]) == 'comment'
+                    ok = rx.compare(got, ref) is None
                 except rx.RxError as e:
                     raise AnalysisError(str(e))
         r5.check(ok, 'lines split at line terminators only', rel, sp.lineno,
